@@ -57,6 +57,14 @@ type Shape struct {
 	// Grouped (xml): every record sits in its own <grp t="A"> element, records the filter rejects in <grp t="B">; the
 	// record filter is then a predicate on a NON-final step of the FINAL_OUTPUT xpath (/root/grp[@t='A']/rec).
 	Grouped bool `json:"grouped,omitempty"`
+	// XMLText (xml): how field values are written as character data: 0 escaped text; 1 one CDATA section; 2 text followed by
+	// a CDATA section; 3 text, a comment, text; 4 two adjacent CDATA sections; 5 text, a processing instruction, text. The
+	// character data of the element is the same in every mode (several adjacent text nodes in the tree for 2..5).
+	XMLText int `json:"xml_text,omitempty"`
+	// XMLNS (xml): 0 no namespaces; 1 the root element declares a default namespace; 2 as 1 and every record element whose first
+	// value has an even byte length re-declares the same default namespace; 3 as 1 and the root also declares two unused prefixes, one of them
+	// re-declared (same URI) on those records. Element names stay unprefixed, so schema xpaths are unaffected.
+	XMLNS   int  `json:"xml_ns,omitempty"`
 	FLRows  int  `json:"fl_rows,omitempty"`
 	FLBlank bool `json:"fl_blank,omitempty"`
 }
@@ -101,7 +109,7 @@ type ShapeOpts struct {
 	MaxXform  int  // > 0: draw the transform flavour from 0..MaxXform (3 = cache-sensitive flavour)
 	// AllowReplaceQuotes lets csv / csv2 shapes set replace_double_quotes
 	AllowReplaceQuotes bool
-	Encodings []string
+	Encodings          []string
 }
 
 // DrawShape draws a shape.
@@ -161,6 +169,12 @@ func DrawShape(t *rapid.T, o ShapeOpts) Shape {
 		s.Envelope = rapid.Bool().Draw(t, "envelope")
 		if s.Format == "xml" {
 			s.Grouped = rapid.IntRange(0, 2).Draw(t, "grouped") == 0
+			if rapid.IntRange(0, 2).Draw(t, "xmlTextSplit") == 0 {
+				s.XMLText = rapid.IntRange(1, 5).Draw(t, "xmlText")
+			}
+			if rapid.IntRange(0, 2).Draw(t, "xmlNamespaces") == 0 {
+				s.XMLNS = rapid.IntRange(1, 3).Draw(t, "xmlNS")
+			}
 		}
 		if rapid.Bool().Draw(t, "hasSub") {
 			s.NSub = rapid.IntRange(1, 2).Draw(t, "nsub")
@@ -747,6 +761,36 @@ func (s Shape) ediEscape(v string) string {
 	return b.String()
 }
 
+// xmlCharData writes v as the character data of an element in one of the XMLText modes.
+func xmlCharData(v string, mode int) string {
+	if mode == 0 {
+		return xmlEscape(v)
+	}
+	cdata := func(x string) string {
+		if strings.Contains(x, "]]>") || strings.ContainsAny(x, "\r") {
+			return xmlEscape(x)
+		}
+		return "<![CDATA[" + x + "]]>"
+	}
+	cut := len(v) / 2
+	for cut > 0 && !utf8.RuneStart(v[cut]) {
+		cut--
+	}
+	a, b := v[:cut], v[cut:]
+	switch mode {
+	case 1:
+		return cdata(v)
+	case 2:
+		return xmlEscape(a) + cdata(b)
+	case 3:
+		return xmlEscape(a) + "<!-- c -->" + xmlEscape(b)
+	case 4:
+		return cdata(a) + cdata(b)
+	default:
+		return xmlEscape(a) + "<?p i?>" + xmlEscape(b)
+	}
+}
+
 func xmlEscape(v string) string {
 	var b strings.Builder
 	for _, r := range v {
@@ -945,22 +989,40 @@ func (s Shape) RenderParts(recs []Rec) (pro string, parts []string, epi string) 
 			parts = append(parts, p+eol)
 		}
 	case "xml":
-		pro = "<root>"
+		rootNS := ""
+		switch s.XMLNS {
+		case 1, 2:
+			rootNS = ` xmlns="urn:verif:d"`
+		case 3:
+			rootNS = ` xmlns="urn:verif:d" xmlns:u1="urn:verif:u1" xmlns:u2="urn:verif:u2"`
+		}
+		pro = "<root" + rootNS + ">"
 		epi = "</root>" + eol
 		if s.Envelope {
-			pro = `<?xml version="1.0" encoding="UTF-8"?>` + eol + `<root><head a="1">h</head><body>`
+			pro = `<?xml version="1.0" encoding="UTF-8"?>` + eol + `<root` + rootNS + `><head a="1">h</head><body>`
 			epi = "</body><foot/></root>" + eol
 		}
+		xmlEscape := func(v string) string { return xmlCharData(v, s.XMLText) }
 		for _, r := range recs {
 			var b strings.Builder
+			recNS := ""
+			// (a function of the record, not of its position: C10 permutes and splits record lists)
+			if len(r.Vals) > 0 && len(r.Vals[0])%2 == 0 {
+				switch s.XMLNS {
+				case 2:
+					recNS = ` xmlns="urn:verif:d"`
+				case 3:
+					recNS = ` xmlns:u1="urn:verif:u1"`
+				}
+			}
 			if s.Filter && s.IntCol != 0 && s.QuoteInFilter {
 				k := "ok"
 				if strings.HasPrefix(r.Vals[0], s.SkipToken()) {
 					k = "SK'P"
 				}
-				b.WriteString(`<rec k="` + k + `">`)
+				b.WriteString(`<rec` + recNS + ` k="` + k + `">`)
 			} else {
-				b.WriteString("<rec>")
+				b.WriteString("<rec" + recNS + ">")
 			}
 			for j, v := range r.Vals {
 				fmt.Fprintf(&b, "<%s>%s</%s>", colName(j), xmlEscape(v), colName(j))
